@@ -346,7 +346,7 @@ K4 = [de("c16_noise_update_n2_always", "NoiseAgent::update, 2 traders, p_limit >
 
 K5 = [de("c16_noise_market_update_n2_always", "NoiseMarketAgent::update (asset 1 of 2), 2 traders, both probabilities >= 1: exactly one limit and one market order per trader on the agent's own asset", covers=["cover.every_trader_placed_both"], timeout=600),
       de("c16_noise_market_update_n2_never", "same, both probabilities 0: nothing", covers=["cover.nobody_acted"], timeout=600),
-      de("c16_noise_market_update_n2_market_only", "same, p_limit = 0, p_market >= 1", covers=[], timeout=600, tiers=("thorough",)),
+      de("c16_noise_market_update_n2_market_only", "same, p_limit = 0, p_market >= 1", covers=[], timeout=600),
       de("c16_noise_market_update_n2_interior", "same, both probabilities strictly inside (0,1)", covers=["cover.every_trader_placed_both", "cover.nobody_acted"], timeout=600, tiers=("thorough",)),
       de("c16_random_market_update_always_tick3", "RandomMarketAgents::update, one slot on asset 1 of 2 (empty or holding an order of any status), rate >= 1, tick 3: cancels its own Active order, else places one order on its own asset with price = 3 x tick in range, volume in range, trader id = index", covers=["cover.cancels", "cover.places_a_bid"], timeout=900),
       de("c16_random_market_update_never_tick1", "same, rate 0: does nothing, draws one word", covers=[], timeout=900, tiers=("thorough",)),
